@@ -370,6 +370,14 @@ pub async fn execute(seed: u64, plan: Value) -> Run {
             }
             "sleep" => tokio::time::sleep(Duration::from_millis(s["ms"].as_u64().unwrap_or(1000))).await,
             "clock_jump" => vrt::time::jump_wall(s["ms"].as_i64().unwrap_or(0) * 1_000_000),
+            "rm_path" => {
+                // environment fault: a directory (or file) is removed under the running agent
+                let p = s["path"].as_str().unwrap_or("").to_string();
+                if p.starts_with("/var/lib/azure-proxy-agent") || p.starts_with("/var/log/azure-proxy-agent") {
+                    let ok = seams::untraced(|| std::fs::remove_dir_all(&p).or_else(|_| std::fs::remove_file(&p)).is_ok());
+                    vrt::log("disk", format!("env-remove {} -> {}", p, if ok { "ok" } else { "absent" }));
+                }
+            }
             "clock_coarse" => vrt::time::set_coarse(s["ns"].as_u64().unwrap_or(0)),
             "arm" => vrt::arm(s["site"].as_str().unwrap_or(""), s["n"].as_i64().unwrap_or(1)),
             "knob" => vrt::set_knob(s["name"].as_str().unwrap_or(""), s["v"].as_i64().unwrap_or(0)),
